@@ -7,11 +7,15 @@ SPEC = Spec(
         # deterministic, gated histories: exact differential (D) against the LTS + Lean trace monitor (M) + Go oracles
         Harness(name="runloop", module="otelcol", pkg="otelcol",
                 files={"zz_verif_c20_runloop_test.go": "c20/runloop_test.go"},
-                test="TestVerifC20RunLoop", driver="drv_c20", n={"quick": 6000, "thorough": 80000}, timeout_s=1500),
+                test="TestVerifC20RunLoop", driver="drv_c20", n={"quick": 5000, "thorough": 50000}, timeout_s=1500),
+        # exhaustive small scope: every script over the gate alphabet up to length n (3 anchors), same protocol and model
+        Harness(name="exhaustive", module="otelcol", pkg="otelcol",
+                files={"zz_verif_c20_runloop_test.go": "c20/runloop_test.go", "zz_verif_c20_exhaustive_test.go": "c20/exhaustive_test.go"},
+                test="TestVerifC20Exhaustive", driver="drv_c20", n={"quick": 3, "thorough": 5}, timeout_s=1500),
         # native scheduling, no gates: monitored only (M)
         Harness(name="race", module="otelcol", pkg="otelcol",
                 files={"zz_verif_c20_runloop_test.go": "c20/runloop_test.go"},
-                test="TestVerifC20Race", driver="drv_c20", n={"quick": 1200, "thorough": 12000}, timeout_s=1500),
+                test="TestVerifC20Race", driver="drv_c20", n={"quick": 1000, "thorough": 10000}, timeout_s=1500),
     ],
     rule="runloop: the real otelcol.Collector (real ConfigProvider/confmap.Resolver, real service.Service) with an instrumented "
          "confmap provider and instrumented receiver/exporter/extension factories; the Run goroutine is parked at gates inside the "
